@@ -1,11 +1,13 @@
 import Ledger.Driver.Core
 import Ledger.Driver.Allot
+import Ledger.Driver.Shape
 
 /-! Handler table of the correspondence driver: "f" → handler. -/
 namespace Ledger.Driver
 
 def handlers : List (String × Handler) := [
-  ("allot", handleAllot)
+  ("allot", handleAllot),
+  ("shape", handleShape)
 ]
 
 end Ledger.Driver
